@@ -361,6 +361,50 @@ def schema_descs(tier):
     return out
 
 
+def c10_descs(tier):
+    """descriptions at the edge of what the analyzer accepts: the compiler must answer each with
+    target code or a diagnostic, never with a crash"""
+    out = []
+    D = lambda name, decls: out.append(desc("little", decls, name=name))
+    D("x_typedef_group", [groupdecl("G", [scalar("a", 8)]), packet("P", [typedef("x", "G")])])
+    D("x_enum_only_default", [enum("E", 8, [tother("X")]), packet("P", [typedef("e", "E")])])
+    D("x_constraint_on_flag", [packet("A", [scalar("f", 1), reserved(7), scalar("x", 8, cond=("f", 1)), payload()]),
+                               packet("B", [], parent="A", cons=[cons("f", 1)])])
+    D("x_fixed_range_tag", [enum("E", 8, [tag("A", 0), trange("R", 1, 9)]), packet("P", [fixedenum("R", "E")])])
+    D("x_payload_then_dynamic", [packet("P", [payload(), count("x", 8), array("x", 8)])])
+    D("x_twins", [packet("A", [scalar("v", 8), payload()]), packet("B", [scalar("x", 8)], parent="A", cons=[cons("v", 1)]),
+                  packet("C", [scalar("y", 8)], parent="A", cons=[cons("v", 1)])])
+    D("x_enum_w65", [enum("E", 65, [tag("A", 1)]), packet("P", [typedef("e", "E"), reserved(7)])])
+    D("x_scalar_w65", [packet("P", [scalar("a", 65), reserved(7)])])
+    D("x_scalar_w128", [packet("P", [scalar("a", 128)])])
+    D("x_group_72", [packet("P", [scalar("a", 4), scalar("b", 64), scalar("c", 4)])])
+    D("x_reserved_0", [packet("P", [reserved(0), scalar("a", 8)])])
+    D("x_scalar_0", [packet("P", [scalar("z", 0), scalar("a", 8)])])
+    D("x_array_w0", [packet("P", [array("z", 0, count=2), scalar("a", 8)])])
+    D("x_empty_struct_array", [struct("E", []), packet("P", [array("x", "E")])])
+    D("x_empty_struct_array_cnt", [struct("E", []), packet("P", [count("x", 8), array("x", "E")])])
+    D("x_size_after", [packet("P", [array("x", 8), size("x", 8)])])
+    D("x_count_of_payload", [packet("P", [count("_payload_", 8), payload()])])
+    D("x_elementsize_scalar", [packet("P", [elementsize("x", 8), array("x", 16)])])
+    D("x_padding_zero", [packet("P", [array("x", 8, count=2), padding(0)])])
+    D("x_padding_small", [packet("P", [array("x", 16, count=4), padding(2)])])
+    D("x_optional_struct_cond", [SS, packet("P", [scalar("c", 1), reserved(7), typedef("s", "SS", cond=("c", 0)), payload()])])
+    D("x_recursive_array", [struct("T", [scalar("k", 8), count("sub", 8), array("sub", "T")]), packet("P", [typedef("t", "T")])])
+    D("x_keyword_ids", [packet("P", [scalar("type", 8), scalar("match", 8), scalar("self_", 8)])])
+    D("x_fixed_w64", [packet("P", [fixed(0xffffffffffffffff, 64)])])
+    D("x_tag_max", [enum("E", 64, [tag("A", 0xffffffffffffffff)]), packet("P", [fixedenum("A", "E")])])
+    D("x_child_no_payload_parent", [packet("A", [scalar("v", 8)]), packet("B", [], parent="A", cons=[cons("v", 1)]),
+                                    packet("C", [], parent="A", cons=[cons("v", 2)])])
+    D("x_struct_with_children_field", [struct("S", [scalar("t", 8), payload()]), struct("S1", [scalar("x", 8)], parent="S", cons=[cons("t", 1)]),
+                                       packet("P", [array("ss", "S1", count=2)])])
+    D("x_custom_unsized", [custom("U", None), packet("P", [typedef("u", "U")])])
+    D("x_checksum", [checksum("C", 8), packet("P", [checksum_start("c"), scalar("a", 8), typedef("c", "C")])])
+    D("x_many_optionals", [packet("P", [scalar("c%d" % i, 1) for i in range(8)] + [scalar("o%d" % i, 8, cond=("c%d" % i, i % 2)) for i in range(8)])])
+    D("x_deep_groups", [groupdecl("G1", [scalar("a", 8)]), groupdecl("G2", [group("G1")]), groupdecl("G3", [group("G2")]),
+                        groupdecl("G4", [group("G3")]), packet("P", [group("G4")])])
+    return out
+
+
 def build(tier="quick"):
     ds = []
     for f in (bitfield_descs, enum_descs, array_descs, payload_descs, optional_descs, struct_descs, custom_descs,
